@@ -6,11 +6,36 @@ import json, os
 ROOT = os.path.dirname(os.path.abspath(__file__))
 
 # id -> (technique, level text, level note, design ref)
+PBT = "property-based testing with pgregory.net/rapid (structured generators, shrinking) + exhaustive boundary grids"
 CLAIMED = {
-    "C14": ("property-based testing (rapid) + exhaustive small grids against an exact big-integer reference model",
-            "Exploration: tens of thousands of generated (op, a, b, n) cases per run plus two exhaustive grids, each judged by exact scaled-integer arithmetic written independently of ion-go. Absence of a violation is evidence within the generated bounds, not a proof.",
+    "C01": (PBT + "; round-trip oracle (write with ion-go, read with ion-go, compare in the harness's Ion data model)",
+            "Exploration: ~10^5 generated (mode, value sequence, API route) cases per quick run over all 13 types, typed nulls, boundary numbers, reserved-looking symbol text, deep nesting, plus an enumerated boundary pool; a failure is shrunk and saved as a replay file.",
+            "Uses ion-go's own reader as the inverse (symmetric writer/reader mistakes are C04's job). Conditional on the writer finishing without error. Trusts the harness model/equality, rapid, Go.",
+            "DESIGN.md section 5, C01"),
+    "C02": (PBT + "; reference-model oracle (independent spec-derived text printer with randomised spelling, self-checked by an independent strict parser)",
+            "Exploration: ~10^5 documents per quick run, each a generated value stream rendered with random spelling choices at every token (whitespace/comments, radix, underscores, exponent forms, escapes, long-string segmentation, $n symbols with a declared table, lob whitespace, offsets, trailing commas); ion-go's reader must yield exactly the model.",
+            "Trusts the harness's printer and parser (cross-checked against each other on every document; a disagreement aborts with exit 2, never a violation). Spellings whose legality could not be confirmed offline are not emitted (listed in evidence assumptions).",
+            "DESIGN.md section 5, C02; section 9.4"),
+    "C03": (PBT + "; reference-model oracle (independent spec-derived binary encoder with randomised representation choices, self-checked by an independent strict decoder)",
+            "Exploration: ~10^5 documents per quick run with random representation choices per value (length forms, VarUInt padding, leading zero bytes, float widths, NOP pads, sorted structs, repeated IVMs, split/appended symbol tables, wrappers around everything); ion-go's reader must yield exactly the model.",
+            "Trusts the harness's encoder and decoder (cross-checked on every document). VarUInt over-padding stays within ion-go's documented 10-byte limit.",
+            "DESIGN.md section 5, C03; section 9.2"),
+    "C04": (PBT + "; independent strict binary decoder / text parser as oracle over the bytes ion-go's writers emit",
+            "Exploration: ~10^5 writer runs per quick run over 4 writer configurations (text, pretty, binary growing table, binary fixed table), 0-3 shared tables, 1-3 Finish-separated batches; the independent decoder checks IVM first, exact lengths and nesting, every SID <= max_id of the table in force, and value equality.",
+            "Trusts the harness's decoders (no code shared with ion-go). Conditional on all writer calls returning nil.",
+            "DESIGN.md section 5, C04"),
+    "C13": (PBT + "; exhaustive integer-boundary, accessor-matrix and magnitude grids against a big-integer reference model and the independent binary decoder",
+            "Exploration with exhaustive sub-grids: every +-(2^k+d) boundary x 12 presentations, all 16-bit values, the full 11 accessors x 13 types x null x format matrix, float pools and random bit patterns, payload lengths to 2^21, decimal exponents to +-(2^31-1), symbol IDs to 2^62.",
+            "IntSize is checked one-directionally as the property states. Symbol IDs above 2^20 are checked on the emitted bytes and via ion-go's reader with a catalog.",
+            "DESIGN.md section 5, C13"),
+    "C14": (PBT + "; exact big-integer reference model for decimal arithmetic; grammar + inverse oracle for String/ParseDecimal",
+            "Exploration: ~10^5 generated (op, a, b, n) cases per quick run plus two exhaustive grids, each judged by exact scaled-integer arithmetic written independently of ion-go.",
             "Trusts math/big, the harness's own arithmetic, rapid. Exponent differences are bounded so exact rescaling is feasible; exponent -2^31 only in the String/Parse sub-check.",
             "DESIGN.md section 5, C14"),
+    "C15": (PBT + "; reference timestamp model with civil-calendar arithmetic; independent text parser and binary codec; exact rounding oracle for sub-nanosecond fractions",
+            "Exploration with an exhaustive calendar grid (8 years x every month boundary x 2 times x 8+ offsets x 13 fraction shapes x 5 precisions, ~50 000 cases) plus random timestamps, an enumerated list of impossible literals/binary tuples, and 10-30 digit fractions in both formats.",
+            "Local year 1..9999. Ties within 0.001 ns of .5 are accepted either way in the sub-nanosecond check (the text path rounds through float64).",
+            "DESIGN.md section 5, C15"),
 }
 
 PENDING_REASON = "check not built yet in this session (work in progress; see DESIGN.md section 8)"
